@@ -569,7 +569,7 @@ fn main() {
         },
     );
     let thorough = rep.cfg.thorough();
-    let shapes: Vec<Vec<usize>> = vec![vec![2, 3], vec![3, 2], vec![3, 2, 2], vec![2, 2, 3], vec![2, 2, 2, 2], vec![2, 1, 2, 2, 2]];
+    let shapes: Vec<Vec<usize>> = vec![vec![1, 1], vec![1, 3], vec![3, 1], vec![2, 3], vec![3, 2], vec![3, 2, 2], vec![2, 2, 3], vec![2, 2, 2, 2], vec![2, 1, 2, 2, 2]];
     let mut ncases: Vec<NCase> = Vec::new();
     for shape in &shapes {
         let d = shape.len();
